@@ -1,4 +1,5 @@
 import Cutadapt.Adapters
+import Cutadapt.Index
 import Cutadapt.Generated.Dnaio
 /-! Reads, matches and matchables (linked adapters, `MultipleAdapters`) — model of the data that flows through the
     pipeline (`dnaio.SequenceRecord` is a library parameter: slicing acts on sequence and qualities alike,
@@ -98,15 +99,37 @@ def remainder (ms : List AnyMatch) : Nat × Nat :=
   | none => (0, 0)
   | some l => (start, start + (l.remainderInterval.2 - l.remainderInterval.1))
 
-/-- what `MultipleAdapters` iterates over (index-free: `--no-index`; the index is C08's subject) -/
+/-- the dictionary type of the adapter index as the pipeline uses it -/
+abbrev IndexDict := Std.HashMap Bytes Index.Entry
+
+/-- what `MultipleAdapters` iterates over: single adapters, linked adapters and — unless `--no-index` is given — the
+    `IndexedPrefixAdapters` / `IndexedSuffixAdapters` objects into which `AdapterCutter._regroup_into_indexed_adapters` collects the
+    indexable anchored adapters. `ids`: the adapter numbers (positions in the table `namesOf` builds) of the members of the index,
+    in the order of `idx.adapters`. -/
 inductive Matchable where
   | single (a : Adapter)
   | linked (front back : Adapter) (frontRequired backRequired : Bool) (name : String)
+  | indexed (idx : Index.AdapterIndex IndexDict) (ids : List Nat)
 
 namespace Matchable
 def name : Matchable → String
   | .single a => a.name
   | .linked _ _ _ _ n => n
+  | .indexed idx _ => if idx.isPrefix then "indexed_prefix_adapters" else "indexed_suffix_adapters"
+
+/-- is this entry an `IndexedPrefixAdapters` / `IndexedSuffixAdapters` object? -/
+def isIndexed : Matchable → Bool
+  | .indexed .. => true
+  | _ => false
+
+/-- names of the adapters inside an index object (adapter numbers `ids` of `.indexed`), in the order of `idx.adapters` -/
+def memberNames : Matchable → List String
+  | .indexed idx _ => idx.adapters.map (·.name)
+  | _ => []
+
+/-- the match object that `_make_prefix_match` / `_make_suffix_match` build, as a `SingleMatch` (`rstart` is in the read: C08) -/
+def ofIndexMatch (isPrefix : Bool) (im : Index.IndexMatch) : SingleMatch :=
+  ⟨im.astart, im.astop, im.rstart.toNat, im.rstop, im.score, im.errors, isPrefix⟩
 
 /-- `match_to` of a single adapter (without k-mer prefilter, see `Adapters.matchTo`) resp. `LinkedAdapter.match_to` -/
 def matchTo (idx : Nat) : Matchable → Bytes → Option AnyMatch
@@ -120,6 +143,9 @@ def matchTo (idx : Nat) : Matchable → Bytes → Option AnyMatch
     let bm := Adapters.matchTo b s'
     if bm.isNone && (br || fm.isNone) then none
     else some (.linked idx (fm.map (⟨·, s⟩)) (bm.map (⟨·, s'⟩)))
+  | .indexed ix ids, s =>
+    -- `IndexedPrefixAdapters.match_to = self._index.match_to`: the match names the adapter found, not the index object
+    (Index.indexMatchTo Index.hashOps ix s).map fun im => .single (ids.getD im.adapter idx) ⟨ofIndexMatch ix.isPrefix im, s⟩
 end Matchable
 
 /-- the update rule of `MultipleAdapters.match_to` -/
